@@ -22,7 +22,11 @@ RULE = ("histories of 1-30 operations on one System/Atoms pair (initial 1-6 atom
         "Atoms.extend and System.atoms_extend (count or Atoms with subset/superset/overlapping property sets, scale, "
         "symbols, safecopy), __getitem__/atoms_ix/prop(index=)/deepcopy extraction (optionally continuing the history on "
         "the extracted object), __setitem__/atoms_ix set from fresh Atoms/System or from an overlapping slice of itself, "
-        "scaled get/set, symbols/masses/pbc setters, df/atoms_df, documented refusals.  Non-trivial: the history "
+        "scaled get/set, symbols/masses/pbc setters, df/atoms_df, documented refusals.  Values are handed over as fresh "
+        "ndarray, nested list, tuple, non-contiguous / read-only ndarray, integer-typed whole numbers or numpy scalars.  After "
+        "every step the derived quantities (views, natoms, Atoms.natypes/atypes, System.symbols/masses/natypes/atypes, "
+        "str(system), composition, pbc, df) are read in a generated order, with a generated subset of the per-type reads left "
+        "out, so that the order and absence of reads is part of the history.  Non-trivial: the history "
         "contains an extend* followed later by an indexed write, or a scaled extension, or a per-type assignment after "
         "the number of atom types grew")
 ASSUMPTIONS = ["numpy indexing/assignment semantics (including 'last value wins' for repeated indices) are correct",
@@ -32,13 +36,18 @@ ASSUMPTIONS = ["numpy indexing/assignment semantics (including 'last value wins'
                "explored at the Atoms level only",
                "float values are dyadic rationals, so model equality is exact equality"]
 LEVEL_TEXT = ("Random edit histories (<= 30 steps) over every Atoms/System per-atom accessor named in the property, compared row by "
-              "row after every step with an independent record-per-atom model; aliasing probed by mutating every array/object "
+              "row after every step with an independent record-per-atom model, the derived quantities being read in a generated order "
+              "(any subset of the per-type reads left out) and the values handed over in seven array_like forms; aliasing probed by mutating every array/object "
               "handed out by the copying accessors and re-checking operands of extend/atoms_extend at the end of the history.")
 TECHNIQUE = "model-based stateful testing: record-per-atom model, invariants after every step, aliasing probes, refusal atomicity"
 WALL = {'quick': 45, 'thorough': 600}
 
 KEY_SCALE = 'C06:atoms_extend:scale-true'
 KEY_WIDTH = 'C06:extend:new-str-prop-width'
+# open finding (the defect C05 reports as C05:pos-integer-typed:truncated-on-write, met here through another route): Atoms(pos=<whole
+# numbers handed over integer-typed>) keeps an integer dtype; atoms_prop(value=<such Atoms>, scale=True) writes the unscaled
+# Cartesian positions back into that integer array before copying them over, so their fractional parts are lost
+KEY_INTPOS = 'C06:pos-integer-typed:truncated-on-write'
 NMAX = 40
 
 BOXES = [
@@ -185,8 +194,9 @@ def first_diff(arr, exp):
     return -1
 
 
-def check_atoms(atoms, rows, schema, what, mirror=True, width=None):
-    """all structural invariants + model equality for one Atoms object"""
+def check_atoms(atoms, rows, schema, what, mirror=True, width=None, intok=False):
+    """all structural invariants + model equality for one Atoms object (intok: an argument Atoms that the harness itself built
+    from integer-typed whole numbers may hold its float properties as integers)"""
     n = len(rows)
     require(atoms.natoms == n and len(atoms) == n,
             lambda: '%s: natoms=%r len=%r, model has %d atoms' % (what, atoms.natoms, len(atoms), n))
@@ -200,7 +210,7 @@ def check_atoms(atoms, rows, schema, what, mirror=True, width=None):
         require(isinstance(arr, np.ndarray), lambda: '%s: view[%r] is %r, not ndarray' % (what, name, type(arr)))
         require(arr.shape == (n,) + tuple(tshape),
                 lambda: '%s: view[%r].shape=%r, expected %r (one entry per atom)' % (what, name, arr.shape, (n,) + tuple(tshape)))
-        require(arr.dtype.kind in M.NPKIND[kind],
+        require(arr.dtype.kind in M.NPKIND[kind] or (intok and kind == 'f' and arr.dtype.kind in 'iu'),
                 lambda: '%s: view[%r].dtype=%r, property was created as %s' % (what, name, arr.dtype, M.DT[kind]))
         if width is not None and kind == 's':
             require(arr.dtype.itemsize // 4 == width.get(name, 4),
@@ -239,6 +249,21 @@ def flat_columns(name, tshape):
     return [('%s[%d][%d]' % (name, i, j), (i, j)) for i in range(tshape[0]) for j in range(tshape[1])]
 
 
+READS = ['atoms', 'natoms', 'ana', 'aat', 'sym', 'mas', 'nty', 'aty', 'str', 'comp', 'pbc', 'df']
+PT = ['sym', 'mas', 'nty', 'aty', 'str', 'comp']      # reads that go through the lazily filled per-type tuples of System
+NPERM = 479001600                                      # 12!
+
+
+def read_order(o):
+    """permutation of READS number o (factorial number system; 0 = the original fixed order)"""
+    items = list(READS)
+    out = []
+    for k in range(len(items), 0, -1):
+        out.append(items.pop(o % k))
+        o //= k
+    return out
+
+
 # ----------------------------------------------------------------------------- the interpreter
 
 class Run:
@@ -249,11 +274,16 @@ class Run:
         self.ext_seen = False
         self.growth = False
         self.where = 'init'
+        self.na_hi = 0              # largest number of atom types since symbols was last set / read
+        self.ns_hi = 0              # largest possible System.natypes since masses was last set / read
+        self.prev_s = None
         m = self.m = M.Model()
         n = 1 + init['n'] % 6
         src = M.Src(init['vals'], tmax=3)
         ctor = init['ctor']
         aslist = ctor != 'arrays'
+        if init.get('af') is not None and ctor in ('lists', 'arrays', 'prop'):
+            aslist = init['af']          # 2 non-contiguous, 4 tuple, 6 numpy scalars (never 3 / 5: see the table of forms)
         self.bi = init['box'] % len(BOXES)
         self.V = np.array(BOXES[self.bi][0])
         self.o = np.array(BOXES[self.bi][1])
@@ -303,9 +333,15 @@ class Run:
             self.labels.add('init_scaled')
         self.prev_natypes = m.natypes_atoms()
         self.labels.add('ctor:' + ctor)
-        self.check()
+        self.check(rd=init.get('rd'))
 
     # ---- construction helpers
+    def to_arg(self, values, kind, tshape, af):
+        return to_arg(values, kind, tshape, af, used=self.labels)
+
+    def one_arg(self, v, kind, tshape, af, new=False):
+        return one_arg(v, kind, tshape, af, new=new, used=self.labels)
+
     def build_atoms(self, n, names, src, aslist, via_prop=False, safecopy=False, reverse=False):
         rows = [dict() for _ in range(n)]
         schema = OrderedDict()
@@ -316,7 +352,9 @@ class Run:
             for r, v in zip(rows, vals):
                 r[name] = v
             schema[name] = (kind, tshape)
-            kw[name] = self.to_arg(vals, kind, tshape, aslist)
+            # integer-typed form only for properties the object under test already has (as float64): a property that
+            # only the argument has rightly keeps the integer dtype it was given
+            kw[name] = self.to_arg(vals, kind, tshape, aslist if (int(aslist) != 5 or name in self.m.schema) else 0)
         if reverse:
             kw = OrderedDict(reversed(list(kw.items())))
         if via_prop:
@@ -363,38 +401,132 @@ class Run:
         nsys = max(len(m.symbols), m.natypes_atoms())
         m.masses = m.masses[:nsys]
         self.s = self.am.System(atoms=atoms, box=self.s.box, pbc=list(m.pbc), symbols=list(m.symbols), masses=list(m.masses))
+        self.na_hi = self.ns_hi = 0
 
-    def retire(self, what, atoms, rows, schema):
-        self.retired.append((what, atoms, [dict(r) for r in rows], OrderedDict(schema)))
+    def retire(self, what, atoms, rows, schema, intok=False):
+        self.retired.append((what, atoms, [dict(r) for r in rows], OrderedDict(schema), intok))
 
     # ---- invariants of the main object
-    def check(self, df=False):
+    # The derived quantities are *read* in an order that is part of the generated history (rd['o'], decoded by read_order), and
+    # any subset of the per-type reads (PT) can be left out at a step (bit j of rd['skip'] leaves out PT[j]): the getters of
+    # symbols / masses / natypes fill the stored tuples lazily, so what one read returns may depend on which reads came before.
+    # Every read is judged on its own, against the model only (never against a value read from the object earlier).
+    # The model keeps the symbols / masses lists as last set or last read.  The property demands "never shorter than the number
+    # of atom types"; the padding itself is with None, and it may or may not have been stored during steps at which nothing was
+    # read (other operations may read internally).  So a read must return  base + [None]*k  with
+    #     max(len(base), types now)  <=  len  <=  max(len(base), largest number of types since the last read);
+    # with a read at every step both bounds coincide and this is the exact comparison made before.
+    def sym_bounds(self):
+        b = len(self.m.symbols)
+        na = self.m.natypes_atoms()
+        return max(b, na), max(b, na, self.na_hi)
+
+    def padded(self, got, base, lo, hi, what):
+        w = self.where
+        na = self.m.natypes_atoms()
+        require(isinstance(got, tuple) and len(got) >= na, lambda: '%s: %s %r shorter than the %d atom types' % (w, what, got, na))
+        require(lo <= len(got) <= hi and list(got[:len(base)]) == base and all(x is None for x in got[len(base):]),
+                lambda: '%s: %s %r, model %r padded with None to %s entries'
+                % (w, what, got, base, lo if lo == hi else 'between %d and %d' % (lo, hi)))
+        if lo != hi:
+            self.labels.add('pad_uncertain')
+
+    def read(self, item, df=False):
         s, m = self.s, self.m
         w = self.where
         atoms = s.atoms
-        check_atoms(atoms, m.rows, m.schema, w, width=m.width)
-        require(s.natoms == m.n and len(s) == m.n, lambda: '%s: System.natoms=%r, model %d' % (w, s.natoms, m.n))
-        m.pad()
         na = m.natypes_atoms()
-        require(atoms.natypes == na, lambda: '%s: Atoms.natypes=%r, max(atype)=%d' % (w, atoms.natypes, na))
-        require(tuple(atoms.atypes) == tuple(range(1, na + 1)), lambda: '%s: Atoms.atypes=%r' % (w, atoms.atypes))
-        sy = s.symbols
-        ma = s.masses
-        require(isinstance(sy, tuple) and len(sy) >= na, lambda: '%s: symbols %r shorter than the %d atom types' % (w, sy, na))
-        require(isinstance(ma, tuple) and len(ma) >= na, lambda: '%s: masses %r shorter than the %d atom types' % (w, ma, na))
-        require(list(sy) == m.symbols, lambda: '%s: symbols %r, model %r' % (w, sy, m.symbols))
-        require(list(ma) == m.masses and all(x is None or isinstance(x, float) for x in ma),
-                lambda: '%s: masses %r, model %r' % (w, ma, m.masses))
-        require(s.natypes == m.natypes_system(), lambda: '%s: System.natypes=%r, model %d' % (w, s.natypes, m.natypes_system()))
-        pbc = s.pbc
-        require(isinstance(pbc, np.ndarray) and pbc.shape == (3,) and pbc.dtype == bool and pbc.tolist() == m.pbc,
-                lambda: '%s: pbc %r, model %r' % (w, pbc, m.pbc))
-        if na > self.prev_natypes:
+        if item == 'atoms':
+            check_atoms(atoms, m.rows, m.schema, w, width=m.width)
+        elif item == 'natoms':
+            require(s.natoms == m.n and len(s) == m.n, lambda: '%s: System.natoms=%r, model %d' % (w, s.natoms, m.n))
+        elif item == 'ana':
+            require(atoms.natypes == na, lambda: '%s: Atoms.natypes=%r, max(atype)=%d' % (w, atoms.natypes, na))
+        elif item == 'aat':
+            require(tuple(atoms.atypes) == tuple(range(1, na + 1)), lambda: '%s: Atoms.atypes=%r' % (w, atoms.atypes))
+        elif item == 'sym':
+            lo, hi = self.sym_bounds()
+            sy = s.symbols
+            self.padded(sy, m.symbols, lo, hi, 'symbols')
+            m.symbols = list(sy)
+            self.na_hi = na
+        elif item == 'mas':
+            lo_s, hi_s = self.sym_bounds()
+            b = len(m.masses)
+            ma = s.masses
+            self.padded(ma, m.masses, max(b, lo_s), max(b, hi_s, self.ns_hi), 'masses')
+            require(all(x is None or isinstance(x, float) for x in ma), lambda: '%s: masses %r, not None / float' % (w, ma))
+            m.masses = list(ma)
+            self.ns_hi = 0
+        elif item == 'nty':
+            lo, hi = self.sym_bounds()
+            got = s.natypes
+            require(isinstance(got, (int, np.integer)) and lo <= got <= hi,
+                    lambda: '%s: System.natypes=%r, model %s' % (w, got, lo if lo == hi else 'between %d and %d' % (lo, hi)))
+        elif item == 'aty':
+            lo, hi = self.sym_bounds()
+            got = s.atypes
+            require(isinstance(got, tuple) and lo <= len(got) <= hi and got == tuple(range(1, len(got) + 1)),
+                    lambda: '%s: System.atypes=%r, model 1..%s' % (w, got, lo if lo == hi else '(%d to %d)' % (lo, hi)))
+        elif item == 'str':
+            text = str(s)
+            require(isinstance(text, str) and len(text) > 0, lambda: '%s: str(system) = %r' % (w, text))
+        elif item == 'comp':
+            # docstring: "reduced and sorted symbols composition.  Will return None if any symbols are missing"; judged only
+            # where that is unambiguous: str when every atom type up to the current number of types has a symbol, None when the
+            # type of some atom has none
+            got = s.composition
+            present = sorted(set(r['atype'] for r in m.rows))
+            have = [t for t in present if t <= len(m.symbols) and m.symbols[t - 1] is not None]
+            if len(have) < len(present):
+                require(got is None, lambda: '%s: composition=%r although an atom type in use has no symbol (symbols %r)' % (w, got, m.symbols))
+            elif all(x is not None for x in m.symbols):
+                require(isinstance(got, str) and all(m.symbols[t - 1] in got for t in present),
+                        lambda: '%s: composition=%r, symbols %r, atom types in use %r' % (w, got, m.symbols, present))
+        elif item == 'pbc':
+            pbc = s.pbc
+            require(isinstance(pbc, np.ndarray) and pbc.shape == (3,) and pbc.dtype == bool and pbc.tolist() == m.pbc,
+                    lambda: '%s: pbc %r, model %r' % (w, pbc, m.pbc))
+        elif item == 'df':
+            if df:
+                self.check_df(atoms.df(), False, 'df()')
+        else:
+            raise ValueError(item)
+
+    def check(self, df=False, rd=None):
+        m = self.m
+        rd = rd or {}
+        order = read_order(int(rd.get('o', 0)))
+        skip = int(rd.get('skip', 0))
+        left_out = set(PT[j] for j in range(len(PT)) if (skip >> j) & 1)
+        na = m.natypes_atoms()
+        grown = na > self.prev_natypes
+        if grown:
             self.growth = True
             self.labels.add('type_growth')
+        # growth on the same System object (indexed / whole / Atoms-valued atype write), as opposed to a new System
+        inplace = grown and self.s is self.prev_s
+        self.prev_s = self.s
         self.prev_natypes = na
-        if df:
-            self.check_df(atoms.df(), False, 'df()')
+        self.na_hi = max(self.na_hi, na)
+        self.ns_hi = max(self.ns_hi, self.sym_bounds()[1])
+        if order != READS:
+            self.labels.add('rd:permuted')
+        if left_out:
+            self.labels.add('rd:quiet' if len(left_out) == len(PT) else 'rd:subset')
+        first_pt = True
+        for item in order:
+            if item in left_out:
+                continue
+            if item in PT:
+                if first_pt and item != 'sym':
+                    self.labels.add('rd:%s_first' % item)
+                    if inplace:
+                        self.labels.add('rd:%s_first_after_inplace_growth' % item)
+                first_pt = False
+            self.read(item, df=df)
+        if inplace and left_out and first_pt:
+            self.labels.add('rd:quiet_after_inplace_growth')
 
     def check_df(self, df, scaled, what):
         m = self.m
@@ -419,11 +551,11 @@ class Run:
                     ok = all((g == e) for g, e in zip(got, exp))
                 require(ok, lambda: '%s %s: column %r is %r, model %r' % (w, what, col, got, exp))
 
-    def finish(self):
+    def finish(self, rd=None):
         self.where = 'end'
-        self.check(df=True)
-        for what, atoms, rows, schema in self.retired:
-            check_atoms(atoms, rows, schema, 'at the end of the history, operand of %s' % what)
+        self.check(df=True, rd=rd)
+        for what, atoms, rows, schema, intok in self.retired:
+            check_atoms(atoms, rows, schema, 'at the end of the history, operand of %s' % what, intok=intok)
 
     # ---- name / value resolution
     def existing(self, k, only=None):
@@ -440,7 +572,7 @@ class Run:
         self.where = 'step %d (%s)' % (k, name)
         self.labels.add('op:' + name)
         getattr(self, 'op_' + name)(op)
-        self.check(df=(k % 5 == 4))
+        self.check(df=(k % 5 == 4), rd=op.get('rd'))
 
     def refusal(self, fn, exc, msg, what):
         """fn must raise exc with msg in the text; the invariants check that follows shows the state is unchanged"""
@@ -460,9 +592,11 @@ class Run:
         kind, tshape = M.KINDS[name]
         new = name not in m.schema
         n = m.n
-        src = M.Src(op['vals'], tmax=op['tmax'])
-        mode = op['mode']
         aslist = op['aslist']
+        src = M.Src(op['vals'], tmax=op['tmax'], whole=(int(aslist) == 5))
+        mode = op['mode']
+        if new and (int(aslist) == 5 or (int(aslist) == 3 and op['via'] in ('attr', 'view'))):
+            aslist = 0          # see the table of forms
         if mode == 'scalar' and tshape != ():
             mode = 'len1'
         if mode == 'scalar':
@@ -527,8 +661,8 @@ class Run:
         form, idx, sel = self.resolve(op['idx'], force_int=(via == 'a_id'))
         if form == 'all':
             idx = slice(None)
-        src = M.Src(op['vals'], tmax=op['tmax'])
         aslist = op['aslist']
+        src = M.Src(op['vals'], tmax=op['tmax'], whole=(int(aslist) == 5))
         if form == 'int' or op['vmode'] == 'one':
             v = src.one(kind, tshape)
             arg = self.one_arg(v, kind, tshape, aslist)
@@ -549,7 +683,7 @@ class Run:
 
     def op_scaled_set(self, op):
         m, s = self.m, self.s
-        src = M.Src(op['vals'])
+        src = M.Src(op['vals'], whole=(int(op['aslist']) == 5))
         name = FLOAT3[op['name'] % 2]
         spec = op['idx']
         if name not in m.schema and spec['k'] != 'all':
@@ -700,6 +834,7 @@ class Run:
         require(isinstance(ma, tuple) and all(x is None or isinstance(x, float) for x in ma),
                 lambda: '%s: %s: masses %r' % (self.where, what, ma))
         m.masses = list(ma)
+        self.na_hi = self.ns_hi = 0
 
     # extension --------------------------------------------------------------------------------
     def op_extend(self, op):
@@ -711,7 +846,7 @@ class Run:
         if n + n_other > NMAX:
             self.labels.add('skip_nmax')
             return
-        src = M.Src(op['vals'], tmax=op['tmax'])
+        src = M.Src(op['vals'], tmax=op['tmax'], whole=(int(op['aslist']) == 5))
         scale = bool(op['scale']) and via == 'system' and op['what'] == 'atoms'
         if op['what'] == 'int':
             value = n_other
@@ -780,8 +915,9 @@ class Run:
             raise
         # operands unchanged (the System/Atoms extended is re-checked by self.check(); the argument here)
         if other is not None:
-            check_atoms(other, osnap, oschema, '%s: argument of %s after the call' % (self.where, what))
-            self.retire('%s (the argument)' % what, other, osnap, oschema)
+            intok = int(op['aslist']) == 5
+            check_atoms(other, osnap, oschema, '%s: argument of %s after the call' % (self.where, what), intok=intok)
+            self.retire('%s (the argument)' % what, other, osnap, oschema, intok=intok)
         check_atoms(atoms, m.rows, m.schema, '%s: operand of %s after the call' % (self.where, what))
         for key in m.schema:
             require(not np.shares_memory(new.view[key], atoms.view[key]),
@@ -816,10 +952,13 @@ class Run:
         atoms = s.atoms
         via = op['via']
         form, idx, sel = self.resolve(op['idx'])
-        src = M.Src(op['vals'], tmax=op['tmax'])
+        src = M.Src(op['vals'], tmax=op['tmax'], whole=(int(op['aslist']) == 5))
         count = 1 if (form == 'int' or op['vmode'] == 'one' or not sel) else len(sel)
         names = [x for x in m.schema if x not in ('atype', 'pos')]
-        value, vrows, vschema = self.build_atoms(count, names, src, op['aslist'], reverse=bool(op['reverse']))
+        af = op['aslist']
+        if via == 'sysprop_scaled' and int(af) == 3:
+            af = 0      # this route unscales the positions of the value in place (tolerated before: the value is not re-checked)
+        value, vrows, vschema = self.build_atoms(count, names, src, af, reverse=bool(op['reverse']))
         vsnap = [dict(r) for r in vrows]
         scaled = via == 'sysprop_scaled'
         if scaled:
@@ -850,10 +989,19 @@ class Run:
             last = {}
             for i, e in zip(sel, exp):
                 last[i] = e
-            self.sync_float3('pos', list(last), [last[i] for i in last], what)
+            intpos = value.view['pos'].dtype.kind in 'iu'       # input class of the open finding KEY_INTPOS
+            try:
+                self.sync_float3('pos', list(last), [last[i] for i in last], what)
+            except Violation as v:
+                if intpos and v.key is None:
+                    raise Violation('positions of the value given as whole numbers are stored with dtype %s: %s' % (value.view['pos'].dtype, v.detail),
+                                    key=KEY_INTPOS)
+                raise
             self.labels.add('scaled_atoms_set')
+            if intpos:
+                self.labels.add('scaled_atoms_set_intpos')
         else:
-            check_atoms(value, vsnap, vschema, '%s: value of %s after the call' % (self.where, what))
+            check_atoms(value, vsnap, vschema, '%s: value of %s after the call' % (self.where, what), intok=(int(op['aslist']) == 5))
         self.indexed_write()
 
     def op_setself(self, op):
@@ -883,10 +1031,12 @@ class Run:
         name = self.anyname(op['name'], atype=False)
         kind, tshape = M.KINDS[name]
         new = name not in m.schema
-        src = M.Src(op['vals'])
+        aslist = op['aslist']
+        src = M.Src(op['vals'], whole=(int(aslist) == 5))
         na = m.natypes_atoms()
         mode = op['mode']
-        aslist = op['aslist']
+        if new and int(aslist) == 5:
+            aslist = 0          # see the table of forms
         if mode == 'all':
             vals = src.many(kind, tshape, na)
             atoms.prop_atype(name, self.to_arg(vals, kind, tshape, aslist))
@@ -930,10 +1080,17 @@ class Run:
         else:
             s.symbols = tuple(syms) if op['astuple'] else list(syms)
             m.symbols = list(syms)
+        self.na_hi = 0      # the setter pads to the number of types now; earlier numbers of types no longer matter (ns_hi keeps them)
 
     def op_masses(self, op):
         m, s = self.m, self.s
         vals = op['masses']
+        lo, hi = self.sym_bounds()
+        if lo != hi:
+            # whether "more masses than atom types" holds depends on the stored length of symbols, which is only known
+            # within bounds after steps without reads: read it first
+            self.read('sym')
+            self.labels.add('masses_settled_first')
         nsys = m.natypes_system()
         if isinstance(vals, list):
             if op['fit']:
@@ -954,10 +1111,12 @@ class Run:
                 self.labels.add('refusal')
                 return
             m.masses = newm
+            self.ns_hi = 0
             self.labels.add('masses_toolong_accepted')
             return
         s.masses = arg
         m.masses = newm
+        self.ns_hi = 0
 
     def op_pbc(self, op):
         p = [bool(x) for x in op['p']]
@@ -1035,7 +1194,7 @@ def oracle_history(case):
     run = Run(am, case['init'])
     for k, op in enumerate(case['ops']):
         run.step(k, op)
-    run.finish()
+    run.finish(rd=case.get('fin'))
     labels = run.labels
     nops = len(case['ops'])
     labels.add('len>=10' if nops >= 10 else 'len<10')
@@ -1067,26 +1226,29 @@ VMODE = st.sampled_from(['one', 'many', 'many'])
 SYMS = st.lists(st.sampled_from(['Al', 'Cu', 'Fe', 'O', 'H', 'Ni']), max_size=5)
 MASSV = st.one_of(st.none(), I(1, 240).map(lambda k: k / 4.0), I(1, 60))
 MASSES = st.lists(MASSV, max_size=5)
+AF = st.sampled_from([False, True, False, True, 2, 3, 4, 5, 5, 6])       # forms of a value argument: table above to_arg
+# order of the reads after a step (number of a permutation of READS; 0 = the original order) and per-type reads left out
+RD = FD({'o': st.one_of(J(0), I(0, NPERM - 1), I(0, NPERM - 1)), 'skip': st.one_of(J(0), J(0), J(0), I(0, 63), J(63), J(63))})
 
 OPS = {
     'set': FD({'op': J('set'), 'via': st.sampled_from(['attr', 'view', 'prop', 'sysprop']), 'name': NAME,
-               'mode': st.sampled_from(['scalar', 'len1', 'full', 'full']), 'vals': VALS, 'aslist': B, 'tmax': TMAX}),
+               'mode': st.sampled_from(['scalar', 'len1', 'full', 'full']), 'vals': VALS, 'aslist': AF, 'tmax': TMAX}),
     'setidx': FD({'op': J('setidx'), 'via': st.sampled_from(['prop', 'prop', 'sysprop', 'a_id', 'view']), 'name': NAME, 'idx': IDX,
-                  'vmode': VMODE, 'vals': VALS, 'aslist': B, 'tmax': TMAX}),
-    'scaled_set': FD({'op': J('scaled_set'), 'name': I(0, 1), 'idx': IDX, 'vmode': VMODE, 'vals': VALS, 'aslist': B}),
+                  'vmode': VMODE, 'vals': VALS, 'aslist': AF, 'tmax': TMAX}),
+    'scaled_set': FD({'op': J('scaled_set'), 'name': I(0, 1), 'idx': IDX, 'vmode': VMODE, 'vals': VALS, 'aslist': AF}),
     'get': FD({'op': J('get'), 'via': st.sampled_from(['prop', 'prop', 'sysprop', 'a_id', 'scaled']), 'name': NAME, 'idx': IDX}),
     'getatoms': FD({'op': J('getatoms'), 'via': st.sampled_from(['getitem', 'getitem', 'atoms_ix', 'atoms_ix', 'prop', 'prop', 'a_id', 'sysprop',
                                                                  'scaled', 'deepcopy', 'deepcopy_sys']),
                     'idx': IDX, 'adopt': st.sampled_from([False, False, True])}),
     'extend': FD({'op': J('extend'), 'via': st.sampled_from(['atoms', 'system']), 'what': st.sampled_from(['int', 'atoms', 'atoms']),
-                  'count': I(0, 3), 'same': st.sampled_from([False, False, True]), 'pbits': I(0, 1023), 'vals': VALS, 'aslist': B,
+                  'count': I(0, 3), 'same': st.sampled_from([False, False, True]), 'pbits': I(0, 1023), 'vals': VALS, 'aslist': AF,
                   'tmax': TMAX, 'scale': st.sampled_from([False, False, False, True]), 'symbols': st.one_of(st.none(), st.none(), SYMS),
                   'safecopy': B}),
     'setitem': FD({'op': J('setitem'), 'via': st.sampled_from(['atoms', 'atoms', 'ix_atoms', 'ix_system', 'prop', 'sysprop', 'sysprop_scaled']),
-                   'idx': IDX, 'vmode': VMODE, 'vals': VALS, 'aslist': B, 'tmax': TMAX, 'reverse': B}),
+                   'idx': IDX, 'vmode': VMODE, 'vals': VALS, 'aslist': AF, 'tmax': TMAX, 'reverse': B}),
     'setself': FD({'op': J('setself'), 'via': st.sampled_from(['atoms', 'ix', 'prop']), 'a': I(0, 11), 'b': I(0, 11), 'k': I(0, 11)}),
     'ptype': FD({'op': J('ptype'), 'name': NAME, 'mode': st.sampled_from(['all', 'all', 'one', 'one', 'one', 'short', 'absent']),
-                 't': I(0, 11), 'vals': VALS, 'aslist': B, 'nptype': B}),
+                 't': I(0, 11), 'vals': VALS, 'aslist': AF, 'nptype': B}),
     'symbols': FD({'op': J('symbols'), 'syms': st.one_of(SYMS, SYMS, st.sampled_from(['Al', 'Cu'])), 'astuple': B}),
     'masses': FD({'op': J('masses'), 'masses': st.one_of(MASSES, MASSES, I(1, 240).map(lambda k: k / 4.0)), 'fit': st.sampled_from([True, True, False]),
                   'astuple': B}),
@@ -1095,15 +1257,16 @@ OPS = {
     'refuse': FD({'op': J('refuse'), 'which': st.sampled_from(['badlen', 'badlen', 'badlen', 'atype0', 'atype0', 'aid_index', 'aid_index_scaled',
                                                                'value_not_atoms', 'value_not_atoms_scaled', 'mismatch', 'mismatch', 'ix_not_atoms',
                                                                'extend_type', 'extend_int_scale', 'scale_type']),
-                  'name': NAME, 'a': I(0, 11), 'vals': VALS, 'aslist': B}),
+                  'name': NAME, 'a': I(0, 11), 'vals': VALS, 'aslist': AF}),
 }
 WEIGHTS = {'set': 4, 'setidx': 5, 'scaled_set': 2, 'get': 3, 'getatoms': 4, 'extend': 4, 'setitem': 4, 'setself': 2, 'ptype': 4,
            'symbols': 1, 'masses': 1, 'pbc': 1, 'df': 1, 'refuse': 2}
-OP = st.one_of(*[OPS[k] for k, w in WEIGHTS.items() for _ in range(w)])
+OP = st.one_of(*[st.tuples(OPS[k], RD).map(lambda t: dict(t[0], rd=t[1])) for k, w in WEIGHTS.items() for _ in range(w)])
 INIT = FD({'n': I(0, 5), 'ctor': st.sampled_from(['natoms', 'bcast', 'lists', 'lists', 'arrays', 'arrays', 'prop']), 'props': I(0, 1023),
            'vals': VALS, 'box': I(0, 3), 'pbc': st.lists(B, min_size=3, max_size=3), 'scale': st.sampled_from([False, False, True]),
-           'symbols': st.one_of(st.none(), SYMS, st.sampled_from(['Al', 'Cu'])), 'masses': st.one_of(st.none(), MASSES), 'safecopy': B})
-HISTORY = FD({'init': INIT, 'ops': st.one_of(st.lists(OP, min_size=1, max_size=10), st.lists(OP, min_size=10, max_size=30), st.lists(OP, min_size=15, max_size=30))})
+           'symbols': st.one_of(st.none(), SYMS, st.sampled_from(['Al', 'Cu'])), 'masses': st.one_of(st.none(), MASSES), 'safecopy': B,
+           'af': st.sampled_from([None, None, None, 2, 4, 6]), 'rd': RD})
+HISTORY = FD({'init': INIT, 'fin': RD, 'ops': st.one_of(st.lists(OP, min_size=1, max_size=10), st.lists(OP, min_size=10, max_size=30), st.lists(OP, min_size=15, max_size=30))})
 
 
 def history_cases():
@@ -1111,12 +1274,16 @@ def history_cases():
 
 
 CLAUSES = [
-    Clause('history', oracle_history, history_cases, quick=4000, thorough=100000,
+    Clause('history', oracle_history, history_cases, quick=3600, thorough=90000,
            min_share={'nt': 0.18, 'ext_then_write': 0.17, 'ptype_after_growth': 0.07, 'scaled_ext': 0.007, 'type_growth': 0.2,
                       'idx:-1': 0.09, 'idx:empty': 0.13, 'idx:mask': 0.17, 'idx:repeat': 0.09, 'idx:step': 0.11,
                       'selfset_overlap': 0.07, 'adopt_sub': 0.09, 'probe_get_copy': 0.17, 'probe_extract_copy': 0.12,
                       'probe_prop_set_copy': 0.09, 'refusal': 0.24, 'ext:superset': 0.035, 'ext:subset': 0.03, 'ext:overlap': 0.09,
-                      'len>=20': 0.11, 'scaled_get': 0.07, 'scaled_atoms_set': 0.05, 'ptype_one_newkey': 0.03},
+                      'len>=20': 0.11, 'scaled_get': 0.07, 'scaled_atoms_set': 0.05, 'ptype_one_newkey': 0.03,
+                      'rd:permuted': 0.4, 'rd:quiet': 0.4, 'rd:subset': 0.33, 'rd:mas_first': 0.25, 'rd:nty_first': 0.22,
+                      'rd:mas_first_after_inplace_growth': 0.018, 'rd:nty_first_after_inplace_growth': 0.015,
+                      'rd:quiet_after_inplace_growth': 0.08, 'pad_uncertain': 0.012,
+                      'af:int': 0.22, 'af:noncontig': 0.14, 'af:npscalar': 0.2, 'af:readonly': 0.19, 'af:tuple': 0.2},
            desc='edit histories on one System/Atoms pair against a record-per-atom model: rectangular, row-aligned, model-equal, '
                 'atype >= 1, symbols/masses long enough after every step; copying accessors do not alias; operands of '
                 'new-object operations unchanged; refusals leave the state unchanged'),
